@@ -318,11 +318,44 @@ func lists(maxItems int) [][]int {
 	return out
 }
 
+// sizesPart: the small tuples above cannot reach thresholds inside the implementation
+// (batch sizes, buffer capacities). Long sources (around 20, 40, 64, 100 items) in three
+// shapes, asked for in one large request and in a few two-request sequences.
+func sizesPart(r *ev.Report) {
+	desc := func(n, from, step int) []int {
+		l := make([]int, n)
+		for i := range l {
+			l[i] = from - i*step
+		}
+		return l
+	}
+	var n int64
+	for _, size := range []int{1, 19, 20, 21, 22, 39, 40, 41, 64, 100} {
+		shapes := []tuple{
+			{desc(size, 5000, 1)},                      // one long source
+			{desc(size, 5000, 1), desc(5, 100, 1)},     // a long, newer source before a short, older one
+			{desc(5, 100, 1), desc(size, 5000, 1)},     // ... and after it
+			{desc(size, 5000, 2), desc(size, 4999, 2)}, // two long sources, strictly interleaved
+		}
+		for _, t := range shapes {
+			for _, reqs := range [][]int{{19}, {20}, {21}, {25}, {40}, {41}, {64}, {128}, {20, 20}, {21, 5}, {1, 64}, {20, 1, 20}} {
+				key, _, _, _ := runSession(t, reqs)
+				n++
+				if key != "" {
+					r.Violation("sizes:"+key, session{t, reqs})
+				}
+			}
+		}
+	}
+	r.Eval(n)
+	r.Extra["long_source_sessions"] = n
+}
+
 func main() {
 	r := ev.New("C11", "model_checking",
 		"source tuples: k in 0..3 sources, each a list of 0..3 items with timestamps from {missing, t1<t2<t3} in every order (ties, unsorted); quick: all tuples of <=2 sources with <=3 items and 3 sources with <=2 items, "+
 			"thorough: all tuples of <=3 sources with <=3 items; per tuple an explicit-state search over request sequences (sizes {0,1,2,3,5}, state = items delivered), every transition replayed on a fresh real Splicer "+
-			"over synthetic Container sources, every continuation asked twice, plus every unmerged request pair (optionally followed by an empty request) and then a large request; distinct_nontrivial = tuples with >=2 non-empty sources")
+			"over synthetic Container sources, every continuation asked twice, plus every unmerged request pair (optionally followed by an empty request) and then a large request; long sources (1,19..22,39..41,64,100 items; one source, long+short, two interleaved) under single requests of 19..128 items and a few two-request sequences; distinct_nontrivial = tuples with >=2 non-empty sources")
 	if *ev.FlagReplay != "" {
 		var s session
 		ev.LoadReplay(*ev.FlagReplay, &s)
@@ -388,6 +421,7 @@ func main() {
 		local.MergeInto(r)
 	})
 	_ = shards
+	sizesPart(r)
 	r.Sample(session{tuple{{3, 1}, {2, 2, 0}}, []int{2, 0, 5}})
 	r.Sample(session{tuple{{}, {1, 3}, {3}}, []int{1, 1, 1, 1}})
 	r.Extra["tuples"] = len(tuples)
